@@ -118,6 +118,9 @@ def run(tier):
         for p in _drv.PRECS:
             misc.drop_row_alignment(chk, 'C15.droprow', prog, p, cfgname)
             misc.hole_fill_rule(chk, 'C15.droprow', prog, p, cfgname)
+        chk.clause('C15.emptycol', 'an empty L column never joins the previous supernode (supernodes keep at least as many rows as columns)')
+        for p in _drv.PRECS:
+            misc.ilu_empty_column_rule(chk, 'C15.emptycol', prog, p, cfgname)
         chk.clause('C15.qselect', 'quick-select partition: each scan and the move after it are complements (progress on ties)')
         misc.partition_complement_rule(chk, 'C15.qselect', prog, cfgname)
         if k < 9:
